@@ -152,3 +152,110 @@ def self_member_lit(prog, l):
     if not any(x[0] == "field" and x[2] == "RaftCore.id" for x in walk(r[0][1])):
         return None
     return l[1][2][0]
+
+
+# --------------------------------------------------------------------------------------------------
+# Decision tables: return paths of a small function with Option/bool combinators expanded, so that a
+# shape rule sees `if c { Some(x) } else { None }`, `c.then_some(x)`, `o.and_then(|v| ..)`, `o.map(|v| ..)`,
+# `let v = o?; ..` and an explicit `match` as the same table of (conditions, result).
+NONE = ("enum", "core::option::Option", "None")
+SOME = "core::option::Option::Some"
+CF_CONT = "core::ops::control_flow::ControlFlow::Continue"
+
+
+def _is_opt_branch(name):
+    return name.endswith("::branch") and "option::Option" in name
+
+
+def _norm_branch(e):
+    """Option::branch(x) in {Continue} == x in {Some}; (branch(x) as Continue).0 == (x as Some).0"""
+    if not isinstance(e, tuple) or isinstance(e, frozenset):
+        return e
+    if e and e[0] == "vfield" and e[2] == CF_CONT and isinstance(e[1], tuple) and e[1][0] == "call" and _is_opt_branch(e[1][1]):
+        return ("vfield", _norm_branch(e[1][2][0]), SOME, e[3])
+    return tuple(_norm_branch(x) if isinstance(x, tuple) and not isinstance(x, frozenset) else x for x in e)
+
+
+def _norm_lit(l):
+    e = l[1]
+    if l[0] in ("in", "notin") and e[0] == "call" and _is_opt_branch(e[1]):
+        m = {"Continue": "Some", "Break": "None"}
+        return (l[0], _norm_branch(e[2][0]), frozenset(m.get(x, x) for x in l[2])) + tuple(l[3:])
+    return (l[0], _norm_branch(e)) + tuple(l[2:])
+
+
+def _apply_closure(prog, clos, arg):
+    """[(lits, value)] of the closure applied to `arg` (its first explicit parameter), captures substituted."""
+    rets = closure_returns(prog, clos[1])
+    if not rets:
+        return None
+    caps = dict(clos[2])
+    out = []
+    for r in rets:
+        lits, v = r[0], r[1]
+        m = {}
+        for x in list(walk(v)) + [y for l in lits for y in walk(l[1])]:
+            if x[0] == "upvar" and x[1] in caps:
+                m[x] = caps[x[1]]
+            elif x[0] == "param" and isinstance(x[1], int) and x[1] == 2:
+                m[x] = arg
+        out.append((tuple((l[0], subst(l[1], m)) + tuple(l[2:]) for l in lits), subst(v, m)))
+    return out
+
+
+def decision_table(prog, fn, limit=4000, depth=3):
+    from .pg import PG
+    rows = [(tuple(_norm_lit(l) for l in lits), _norm_branch(v)) for lits, v, _ in PG(prog, fn).returns(limit=limit)]
+    return _expand_rows(prog, rows, depth)
+
+
+def _expand_rows(prog, rows, depth):
+    out = []
+    for lits, v in rows:
+        out += _expand(prog, lits, v, depth)
+    return out
+
+
+def _expand(prog, lits, v, depth):
+    if depth <= 0 or v[0] != "call":
+        return [(lits, v)]
+    name, args = v[1], v[2]
+    if name.endswith("bool>::then_some") and len(args) == 2:
+        c = args[0]
+        return [(lits + (("is", c, True),), ("adt", SOME, ((0, args[1]),))), (lits + (("is", c, False),), NONE)]
+    if name.endswith("::from_residual") and "option::Option" in name:
+        return [(lits, NONE)]
+    if (name.endswith("Option::and_then") or name.endswith("Option::map")) and len(args) == 2 and args[1][0] == "closure":
+        o = args[0]
+        payload = ("vfield", o, SOME, 0)
+        paths = _apply_closure(prog, args[1], payload)
+        if paths is None:
+            return [(lits, v)]
+        rows = [(lits + (("in", o, frozenset(["None"])),), NONE)]
+        for cl, cv in paths:
+            cl = tuple(_norm_lit(l) for l in cl)
+            cv = _norm_branch(cv)
+            if name.endswith("::map"):
+                cv = ("adt", SOME, ((0, cv),))
+            rows.append((lits + (("in", o, frozenset(["Some"])),) + cl, cv))
+        return _expand_rows(prog, rows, depth - 1)
+    if name.endswith("Option::unwrap_or") and len(args) == 2:
+        o = args[0]
+        sub = _expand(prog, lits, o, depth - 1)
+        rows = []
+        for l2, ov in sub:
+            if ov == NONE:
+                rows.append((l2, args[1]))
+            elif ov[0] == "adt" and ov[1] == SOME:
+                rows.append((l2, ov[2][0][1]))
+            else:
+                return [(lits, v)]
+        return rows
+    return [(lits, v)]
+
+
+def some_payload(v):
+    """x of Some(x), else None"""
+    if v[0] == "adt" and v[1] == SOME:
+        return v[2][0][1]
+    return None
